@@ -227,8 +227,9 @@ func runC05(c *kit.Ctx) {
 		})
 	}
 
-	// ---- R05.7 a failed section write is never masked by a later one
+	// ---- R05.7 a failed section write is never masked by a later one, nor filtered by the writer
 	checkWriteErrorDiscipline(c, k, "R05.7")
+	checkWriterRecordsError(c, k, "R05.7")
 
 	// ---- R05.3 what may be persisted as the bitfield
 	{
